@@ -288,5 +288,267 @@ theorem readBody_writeBody_vertex (c : Coding α) (cfg : WriterCfg) (m : MeshVal
   simp only [hfmt, hsum, Int.toNat_natCast, ← hlen, hbody]
   simp only [defaultReader, ← hbuilt, hvb, bind, Except.bind]
 
+/-! ## the face records the library writer emits, under the reader's face loop -/
+
+theorem put32_bytes (e : Endian) (w : UInt32) : ∃ b0 b1 b2 b3, put32 e w = [b0, b1, b2, b3] := by
+  cases e <;> exact ⟨_, _, _, _, rfl⟩
+
+theorem get32_of_put (e : Endian) (w : UInt32) (b0 b1 b2 b3 : UInt8) (l : Bytes) (h : put32 e w = [b0, b1, b2, b3]) :
+    get32 e (b0 :: b1 :: b2 :: b3 :: l) = some w := by
+  have := put32_get32 e w l
+  rwa [h] at this
+
+/-- reading one `list uchar int` property holding three indices -/
+theorem readListBin_tri (e : Endian) (a b c' : UInt32) (rest : Bytes) :
+    readListBin e .uchar .int (3 :: (put32 e a ++ (put32 e b ++ (put32 e c' ++ rest))))
+      = .ok (3, put32 e a ++ (put32 e b ++ put32 e c'), rest) := by
+  obtain ⟨a0, a1, a2, a3, ha⟩ := put32_bytes e a
+  obtain ⟨b0, b1, b2, b3, hb⟩ := put32_bytes e b
+  obtain ⟨c0, c1, c2, c3, hc⟩ := put32_bytes e c'
+  rw [ha, hb, hc]
+  simp [readListBin, bind, Except.bind, SType.size, pure, Except.pure]
+
+theorem listIntsBin_tri (e : Endian) (a b c' : UInt32) :
+    listIntsBin e .int 3 (put32 e a ++ (put32 e b ++ put32 e c')) 4 = some [toInt32 a, toInt32 b, toInt32 c'] := by
+  obtain ⟨a0, a1, a2, a3, ha⟩ := put32_bytes e a
+  obtain ⟨b0, b1, b2, b3, hb⟩ := put32_bytes e b
+  obtain ⟨c0, c1, c2, c3, hc⟩ := put32_bytes e c'
+  rw [ha, hb, hc]
+  simp [listIntsBin, List.range, List.range.loop, List.mapM_cons, get32_of_put e a _ _ _ _ _ ha,
+    get32_of_put e b _ _ _ _ _ hb, get32_of_put e c' _ _ _ _ _ hc]
+
+
+theorem readListBin_uv (e : Endian) (w0 w1 w2 w3 w4 w5 : UInt32) (rest : Bytes) :
+    readListBin e .uchar .float (6 :: (put32 e w0 ++ (put32 e w1 ++ (put32 e w2 ++ (put32 e w3 ++ (put32 e w4 ++ (put32 e w5 ++ rest)))))))
+      = .ok (6, put32 e w0 ++ (put32 e w1 ++ (put32 e w2 ++ (put32 e w3 ++ (put32 e w4 ++ put32 e w5)))), rest) := by
+  obtain ⟨_, _, _, _, h0⟩ := put32_bytes e w0
+  obtain ⟨_, _, _, _, h1⟩ := put32_bytes e w1
+  obtain ⟨_, _, _, _, h2⟩ := put32_bytes e w2
+  obtain ⟨_, _, _, _, h3⟩ := put32_bytes e w3
+  obtain ⟨_, _, _, _, h4⟩ := put32_bytes e w4
+  obtain ⟨_, _, _, _, h5⟩ := put32_bytes e w5
+  rw [h0, h1, h2, h3, h4, h5]
+  simp [readListBin, bind, Except.bind, SType.size, pure, Except.pure]
+
+theorem listFloatsBin_uv (c : Coding α) (e : Endian) (w0 w1 w2 w3 w4 w5 : UInt32) :
+    listFloatsBin c e .float 6 (put32 e w0 ++ (put32 e w1 ++ (put32 e w2 ++ (put32 e w3 ++ (put32 e w4 ++ put32 e w5))))) 8
+      = some [c.unf32 w0, c.unf32 w1, c.unf32 w2, c.unf32 w3, c.unf32 w4, c.unf32 w5] := by
+  obtain ⟨_, _, _, _, h0⟩ := put32_bytes e w0
+  obtain ⟨_, _, _, _, h1⟩ := put32_bytes e w1
+  obtain ⟨_, _, _, _, h2⟩ := put32_bytes e w2
+  obtain ⟨_, _, _, _, h3⟩ := put32_bytes e w3
+  obtain ⟨_, _, _, _, h4⟩ := put32_bytes e w4
+  obtain ⟨_, _, _, _, h5⟩ := put32_bytes e w5
+  rw [h0, h1, h2, h3, h4, h5]
+  simp [listFloatsBin, List.range, List.range.loop, List.mapM_cons, get32_of_put e w0 _ _ _ _ _ h0,
+    get32_of_put e w1 _ _ _ _ _ h1, get32_of_put e w2 _ _ _ _ _ h2, get32_of_put e w3 _ _ _ _ _ h3,
+    get32_of_put e w4 _ _ _ _ _ h4, get32_of_put e w5 _ _ _ _ _ h5]
+
+/-- the list properties / scan of the face element the writer declares -/
+def wlp (hasTex : Bool) : List (Bytes × SType × SType) :=
+  [(nm "vertex_indices", .uchar, .int)] ++ (if hasTex then [(nm "texcoord", .uchar, .float)] else [])
+
+theorem listProps_faceProps (m : MeshVal α) : listProps (faceProps m) = some (wlp (hasTexCoord m)) := by
+  cases h : hasTexCoord m <;> simp [faceProps, h, listProps, wlp]
+
+theorem findFaceProps_wlp (hasTex : Bool) :
+    findFaceProps (wlp hasTex) = ⟨some 0, if hasTex then some 1 else none⟩ := by
+  cases hasTex <;> rfl
+
+/-- what reading one written face record does to the reader's buffers -/
+def afterFace (c : Coding α) (f : WFace α) (b : FaceBufs α) : FaceBufs α :=
+  { idx := overwrite b.idx [toInt32 (ofInt32 f.idx.1), toInt32 (ofInt32 f.idx.2.1), toInt32 (ofInt32 f.idx.2.2)]
+    tex := match f.uv with
+      | none => b.tex
+      | some uv => overwrite b.tex (uv.map (fun v => c.unf32 (c.f32 v))) }
+
+theorem readFaceBin_written (c : Coding α) (e : Endian) (f : WFace α) (hasTex : Bool)
+    (huv : match f.uv with | none => hasTex = false | some uv => hasTex = true ∧ uv.length = 6)
+    (b : FaceBufs α) (rest : Bytes) :
+    readFaceBin c e (wlp hasTex) ⟨some 0, if hasTex then some 1 else none⟩ b (encFaceBin c e f ++ rest)
+      = .ok (3, afterFace c f b, rest) := by
+  obtain ⟨⟨i0, i1, i2⟩, uv⟩ := f
+  cases uv with
+  | none =>
+    simp only at huv
+    subst huv
+    have hr := readListBin_tri e (ofInt32 i0) (ofInt32 i1) (ofInt32 i2) rest
+    have hi := listIntsBin_tri e (ofInt32 i0) (ofInt32 i1) (ofInt32 i2)
+    simp [readFaceBin, readFaceBin.go, wlp, List.zipIdx, encFaceBin, List.append_assoc, hr, hi, bind, Except.bind,
+      afterFace]
+  | some uv =>
+    simp only at huv
+    obtain ⟨hT, hl⟩ := huv
+    subst hT
+    match uv, hl with
+    | [v0, v1, v2, v3, v4, v5], _ =>
+      have hr := readListBin_tri e (ofInt32 i0) (ofInt32 i1) (ofInt32 i2)
+        (6 :: (put32 e (c.f32 v0) ++ (put32 e (c.f32 v1) ++ (put32 e (c.f32 v2) ++ (put32 e (c.f32 v3) ++ (put32 e (c.f32 v4) ++ (put32 e (c.f32 v5) ++ rest)))))))
+      have hi := listIntsBin_tri e (ofInt32 i0) (ofInt32 i1) (ofInt32 i2)
+      have hr2 := readListBin_uv e (c.f32 v0) (c.f32 v1) (c.f32 v2) (c.f32 v3) (c.f32 v4) (c.f32 v5) rest
+      have hf := listFloatsBin_uv c e (c.f32 v0) (c.f32 v1) (c.f32 v2) (c.f32 v3) (c.f32 v4) (c.f32 v5)
+      simp [readFaceBin, readFaceBin.go, wlp, List.zipIdx, encFaceBin, List.append_assoc, hr, hi, hr2, hf, bind, Except.bind,
+        afterFace]
+
+
+def faceIdx (f : WFace α) : List Int :=
+  [toInt32 (ofInt32 f.idx.1), toInt32 (ofInt32 f.idx.2.1), toInt32 (ofInt32 f.idx.2.2)]
+
+/-- the per-corner UVs the reader emits for a written face: float32 images of the three corners' coordinates -/
+def faceUV (c : Coding α) (f : WFace α) : List (List α) :=
+  match f.uv with
+  | none => []
+  | some uv =>
+    let q := uv.map (fun v => c.unf32 (c.f32 v))
+    [q.take 2, (q.drop 2).take 2, (q.drop 4).take 2]
+
+def BufsOk (b : FaceBufs α) : Prop := b.idx.length = 4 ∧ b.tex.length = 8
+
+def UvOk (hasTex : Bool) (f : WFace α) : Prop :=
+  match f.uv with | none => hasTex = false | some uv => hasTex = true ∧ uv.length = 6
+
+theorem emitFace_after (c : Coding α) (f : WFace α) (hasTex : Bool) (huv : UvOk hasTex f) (b : FaceBufs α) (hb : BufsOk b) :
+    emitFace 3 hasTex (afterFace c f b) = .ok (faceIdx f, faceUV c f) ∧ BufsOk (afterFace c f b) := by
+  obtain ⟨⟨i0, i1, i2⟩, uv⟩ := f
+  obtain ⟨idx, tex⟩ := b
+  obtain ⟨hi, ht⟩ := hb
+  simp only at hi ht
+  match idx, hi, tex, ht with
+  | [a0, a1, a2, a3], _, [t0, t1, t2, t3, t4, t5, t6, t7], _ =>
+    cases uv with
+    | none =>
+      simp only [UvOk] at huv
+      subst huv
+      simp [emitFace, afterFace, overwrite, faceIdx, faceUV, BufsOk]
+    | some uv =>
+      simp only [UvOk] at huv
+      obtain ⟨hT, hl⟩ := huv
+      subst hT
+      match uv, hl with
+      | [v0, v1, v2, v3, v4, v5], _ =>
+        simp [emitFace, afterFace, overwrite, faceIdx, faceUV, BufsOk]
+
+/-- STAGE 2 (face loop) on the face records the writer emits: three indices per face (as written: `int32(uint32(i))`)
+and, with `texcoord`, the float32 images of the three corners' coordinates; nothing is left over -/
+theorem readFacesBin_written (c : Coding α) (e : Endian) (hasTex : Bool) :
+    ∀ (fs : List (WFace α)) (b : FaceBufs α), BufsOk b → (∀ f ∈ fs, UvOk hasTex f) → ∀ (rest : Bytes),
+      readFacesBin c e (wlp hasTex) ⟨some 0, if hasTex then some 1 else none⟩ fs.length b
+          ((fs.map (encFaceBin c e)).flatten ++ rest)
+        = .ok ((fs.map faceIdx).flatten, (fs.map (faceUV c)).flatten) := by
+  intro fs
+  induction fs with
+  | nil => intro b _ _ rest; simp [readFacesBin]
+  | cons f fs ih =>
+    intro b hb huv rest
+    have h1 := readFaceBin_written c e f hasTex (huv f (by simp)) b ((fs.map (encFaceBin c e)).flatten ++ rest)
+    obtain ⟨h2, hb'⟩ := emitFace_after c f hasTex (huv f (by simp)) b hb
+    have h3 := ih (afterFace c f b) hb' (fun g hg => huv g (by simp [hg])) rest
+    have hT : (if hasTex then some 1 else (none : Option Nat)).isSome = hasTex := by cases hasTex <;> rfl
+    simp only [List.map_cons, List.flatten_cons, List.length_cons, readFacesBin, List.append_assoc, h1, bind, Except.bind,
+      hT, h2, h3, pure, Except.pure]
+
+
+theorem chunk3_flatten : ∀ (l : List Int) (tris : List (Int × Int × Int)), chunk3 l = some tris →
+    l = (tris.map (fun t => [t.1, t.2.1, t.2.2])).flatten
+  | [], tris, h => by simp [chunk3] at h; subst h; rfl
+  | [_], _, h => by simp [chunk3] at h
+  | [_, _], _, h => by simp [chunk3] at h
+  | a :: b :: c :: rest, tris, h => by
+    simp only [chunk3, Option.map_eq_some_iff] at h
+    obtain ⟨t, ht, rfl⟩ := h
+    have := chunk3_flatten rest t ht
+    simp [← this]
+
+theorem faceRecords_shape (m : MeshVal α) (hwf : m.WF = true) (tris : List (Int × Int × Int)) (fs : List (WFace α))
+    (h : faceRecords m tris = .ok fs) :
+    fs.map (·.idx) = tris ∧ ∀ f ∈ fs, UvOk (hasTexCoord m) f := by
+  simp only [faceRecords] at h
+  cases htex : m.find 2 texCoordAttr with
+  | none =>
+    simp [htex] at h; subst h
+    have hT : hasTexCoord m = false := by simp [hasTexCoord, MeshVal.has, htex]
+    refine ⟨by simp [Function.comp_def], ?_⟩
+    intro f hf
+    simp only [List.mem_map] at hf
+    obtain ⟨t, _, rfl⟩ := hf
+    simp [UvOk, hT]
+  | some tex =>
+    have hT : hasTexCoord m = true := by simp [hasTexCoord, MeshVal.has, htex]
+    simp only [htex] at h
+    obtain ⟨hmem, hdim⟩ := find_mem m _ _ tex htex
+    have hitem : ∀ x ∈ tex.data, x.length = 2 := fun x hx => by rw [WF_items m hwf tex hmem x hx, hdim]
+    have hall := mapM_ok_forall₂ _ tris fs h
+    have hone : ∀ (t : Int × Int × Int) (f : WFace α),
+        (do let p1 ← atIdx tex.data t.1; let p2 ← atIdx tex.data t.2.1; let p3 ← atIdx tex.data t.2.2
+            pure (⟨(t.1, t.2.1, t.2.2), some (p1 ++ p2 ++ p3)⟩ : WFace α)) = .ok f → f.idx = t ∧ UvOk true f := by
+      intro t f hxy
+      obtain ⟨a, b, c'⟩ := t
+      cases h1 : atIdx tex.data a with
+      | error e => simp [h1, bind, Except.bind] at hxy
+      | ok p1 =>
+        cases h2 : atIdx tex.data b with
+        | error e => simp [h1, h2, bind, Except.bind] at hxy
+        | ok p2 =>
+          cases h3 : atIdx tex.data c' with
+          | error e => simp [h1, h2, h3, bind, Except.bind] at hxy
+          | ok p3 =>
+            simp [h1, h2, h3, bind, Except.bind, pure, Except.pure] at hxy
+            subst hxy
+            have l1 := hitem p1 (atIdx_mem _ _ _ h1)
+            have l2 := hitem p2 (atIdx_mem _ _ _ h2)
+            have l3 := hitem p3 (atIdx_mem _ _ _ h3)
+            exact ⟨rfl, by simp [UvOk, l1, l2, l3]⟩
+    rw [hT]
+    clear h
+    induction hall with
+    | nil => simp
+    | @cons t f ts fs' hxy _ ih =>
+      obtain ⟨h1, h2⟩ := hone t f hxy
+      refine ⟨by simp [h1, ih.1], ?_⟩
+      intro g hg
+      simp at hg
+      rcases hg with rfl | hg
+      · exact h2
+      · exact ih.2 g hg
+
+
+/-- STAGES 1+2: reading back a written binary body yields exactly these arrays and this index / UV list, before mesh
+assembly (for ANY located readers) -/
+theorem readBody_writeBody_arrays (c : Coding α) (cfg : WriterCfg) (m : MeshVal α) (body : Bytes)
+    (hf : cfg.format ≠ .ascii) (hwf : m.WF = true) (h : writeBody c cfg m = .ok body)
+    (bl : List (Built × List Nat))
+    (hbuilt : bl.map (·.1) = buildAll true (headerProps (selectWriters cfg m)) defaultReaders true)
+    (hloc : ∀ p ∈ bl, Located (writerTypes (selectWriters cfg m)) p.1 p.2) :
+    ∃ (recs : List (List α)),
+      (List.range m.attrLen).mapM (vertexRecord m (selectWriters cfg m)) = .ok recs ∧
+      (m.topo ≠ .triangle →
+        readBody c defaultReader (writeHeader cfg m) body
+          = assemble (bl.map (·.1)) m.attrLen (recs.map (rowOfW c (writerTypes (selectWriters cfg m)) bl)) none) ∧
+      (m.topo = .triangle → ∃ tris fs, chunk3 m.indices = some tris ∧ faceRecords m tris = .ok fs ∧
+        readBody c defaultReader (writeHeader cfg m) body
+          = assemble (bl.map (·.1)) m.attrLen (recs.map (rowOfW c (writerTypes (selectWriters cfg m)) bl))
+              (some ((fs.map faceIdx).flatten, (fs.map (faceUV c)).flatten))) := by
+  obtain ⟨recs, vbytes, faceBytes, hrecs, hbody, hpt, htri, hread⟩ :=
+    readBody_writeBody_vertex c cfg m body hf hwf h bl hbuilt hloc
+  refine ⟨recs, hrecs, ?_, ?_⟩
+  · intro hne
+    rw [hread, findElement_face]
+    simp [hne, faceStageBin, bind, Except.bind]
+  · intro ht
+    obtain ⟨tris, fs, hc, hfs, hfb⟩ := htri ht
+    refine ⟨tris, fs, hc, hfs, ?_⟩
+    obtain ⟨hidx, huv⟩ := faceRecords_shape m hwf tris fs hfs
+    have hcount : (triCount m) = fs.length := by
+      have := chunk3_length _ _ hc
+      have h2 : fs.length = tris.length := by rw [← hidx]; simp
+      simp [triCount, h2, this]
+    have hfaces := readFacesBin_written c cfg.format.endian (hasTexCoord m) fs
+      ⟨[0, 0, 0, 0], List.replicate 8 (c.ofInt 0)⟩ ⟨rfl, by simp⟩ huv []
+    simp only [List.append_nil] at hfaces
+    rw [hread, findElement_face]
+    simp only [ht, if_true, faceStageBin, listProps_faceProps, findFaceProps_wlp, Option.isNone_some, Bool.false_eq_true,
+      if_false, Int.toNat_natCast, hcount, hfb, hfaces, bind, Except.bind, pure, Except.pure]
+
+
 end PlyCompose
 end PolyVerif
